@@ -6,6 +6,7 @@ import (
 	"fmt"
 	"sort"
 	"strings"
+	"sync"
 )
 
 // Machine is a real object driven by spec actions.
@@ -25,6 +26,8 @@ type ReplayOpts struct {
 	NonTrivial func(from State, e Edge, to State) string
 	SigPrefix  string
 	MaxGroups  int // 0 = all; otherwise a deterministic sample of (state,label) groups
+	// Parallel > 1 runs whole behaviours concurrently in ReplayPaths (machines must be independent).
+	Parallel int
 	// Skip excludes behaviours starting in the given initial state.
 	Skip func(init State) bool
 	// Classify may map a mismatch to a finding-class signature ("" = use the scenario key).
@@ -178,7 +181,10 @@ func ReplayPaths(c *Ctx, g *Graph, o ReplayOpts, depth, maxPaths int) (paths int
 		by     map[string][]int
 	}
 	cache := map[string]*succ{}
+	var cmu sync.Mutex
 	get := func(n string) *succ {
+		cmu.Lock()
+		defer cmu.Unlock()
 		if s, ok := cache[n]; ok {
 			return s
 		}
@@ -230,13 +236,24 @@ func ReplayPaths(c *Ctx, g *Graph, o ReplayOpts, depth, maxPaths int) (paths int
 			}
 			if len(next) == 0 {
 				key := o.SigPrefix + initTag(g, init) + strings.Join(labels, ";")
-				c.Violation(key, fmt.Sprintf("from initial state "+fmtState(g.States[init])+" after %v the implementation is in %s but the specification allows only %v", labels, got, wants),
+				if o.Classify != nil {
+					if s := o.Classify(m, got, wants); s != "" {
+						key = s
+					}
+				}
+				if d, ok := m.(Detailer); ok {
+					got += " [" + clip(d.Detail(), 400) + "]"
+				}
+				c.Violation(key, fmt.Sprintf("from initial state "+clip(fmtState(g.States[init]), 300)+" after %v the implementation is in %s but the specification allows only %v", labels, got, wants),
 					map[string]interface{}{"actions": labels, "got": got, "want": wants})
 				return
 			}
 			cur = next
 		}
+		cmu.Lock()
 		paths++
+		np := paths
+		cmu.Unlock()
 		nt := ""
 		if o.NonTrivial != nil && len(seq) > 0 {
 			e := g.Edges[seq[len(seq)-1]]
@@ -245,9 +262,39 @@ func ReplayPaths(c *Ctx, g *Graph, o ReplayOpts, depth, maxPaths int) (paths int
 			}
 		}
 		c.Eval(nt)
-		if paths%4999 == 1 {
+		if np%4999 == 1 {
 			c.Sample(map[string]interface{}{"behaviour": labels})
 		}
+	}
+	type job struct {
+		init string
+		seq  []int
+	}
+	var jobs []job
+	flush := func() {
+		par := o.Parallel
+		if par < 1 {
+			par = 1
+		}
+		if par == 1 {
+			for _, j := range jobs {
+				run(j.init, j.seq)
+			}
+		} else {
+			sem := make(chan struct{}, par)
+			var wg sync.WaitGroup
+			for _, j := range jobs {
+				wg.Add(1)
+				sem <- struct{}{}
+				go func(j job) {
+					defer wg.Done()
+					defer func() { <-sem }()
+					run(j.init, j.seq)
+				}(j)
+			}
+			wg.Wait()
+		}
+		jobs = nil
 	}
 	// count paths of length exactly <= depth by DP over (node, remaining)
 	type key struct {
@@ -309,7 +356,7 @@ func ReplayPaths(c *Ctx, g *Graph, o ReplayOpts, depth, maxPaths int) (paths int
 		dfs = func(init, n string, d int, seq []int) {
 			s := get(n)
 			if d == 0 || len(s.labels) == 0 {
-				run(init, seq)
+				jobs = append(jobs, job{init, append([]int{}, seq...)})
 				return
 			}
 			for _, l := range s.labels {
@@ -320,6 +367,7 @@ func ReplayPaths(c *Ctx, g *Graph, o ReplayOpts, depth, maxPaths int) (paths int
 		for _, n := range g.Init {
 			dfs(n, n, depth, nil)
 		}
+		flush()
 		c.Extra(o.SigPrefix+"behaviours_exhaustive_to_depth", depth)
 	} else {
 		for i := 0; i < maxPaths; i++ {
@@ -335,8 +383,9 @@ func ReplayPaths(c *Ctx, g *Graph, o ReplayOpts, depth, maxPaths int) (paths int
 				seq = append(seq, ei)
 				n = g.Edges[ei].To
 			}
-			run(init, seq)
+			jobs = append(jobs, job{init, seq})
 		}
+		flush()
 		c.Extra(o.SigPrefix+"behaviours_sampled", maxPaths)
 	}
 	c.Trace(paths)
